@@ -21,6 +21,10 @@ judges each result:
 * cube sanity  ->256: the chosen entry (decoded with an xterm table built here) is, per
                channel, the nearest level or a neighbour of it (necessary condition of
                "nearest"; the exact quantisation rule is not part of the statement);
+* threads      two real threads converting at the same time through the shared palettes and
+               memos: every interleaving of the executed lines with <= bound preemptions
+               (vf/sched.py); each thread's result and the memoised answer afterwards obey
+               the clauses above (keys threads/...);
 * SGR          30-37/90-97, 40-47/100-107, 38;5;n, 38;2;r;g;b, 39/49 by kind, for the
                input and for every conversion result, foreground and background.
 
@@ -30,19 +34,24 @@ quick:    24^3 boundary grid x 4 constructors, all 256 greys, all palette triple
 thorough: all 16,777,216 RGB colours (256 shards by red channel; ascending pass fully
           judged, descending pass re-judges the conversions of the rows g = r (mod 4))
           + everything of quick except the lattice.
+Threads part: quick 2,111 schedules (bound 1 on the four palette harnesses, bound 2 on
+->256), ~12 CPU-s; thorough adds bound 2 on same-palette and std-vs-win (~88 k schedules
+and ~420 CPU-s each) and bound 3 on ->256 (2,955 schedules).
 Measured: quick 11.0 M evaluations, ~70 CPU-s (46 s wall with 6 workers on a machine at
 load 85; ~6 s expected on 16 idle cores); thorough 422 M evaluations, 2079 CPU-s with 6
 workers at load >100 (29 min wall there; ~2.5 min expected on 16 idle cores).
 """
 import itertools
+import json
 import os
+import sys
 import traceback
 
-from ..par import Result, deadline_passed
+from ..par import Result, deadline_passed, MachineryError
 
 ID = "C18"
 LEVEL = "exploration"
-ENGINE = "E1"
+ENGINE = "E1+E3"
 CAP_S = {"quick": 240, "thorough": 1500}
 TECHNIQUE = ("exhaustive enumeration of the colour space on the real Color.downgrade / get_ansi_codes, "
              "judged by an independent integer redmean argmin, an xterm-256 decode table and the SGR table")
@@ -553,6 +562,43 @@ class Oracle:
                 nt.add(sig)
         return True
 
+    def judge_rgb_value(self, d, rgb, T):
+        """clauses of conv() applied to a result value d of converting RGB colour rgb to T, without
+        calling the code under test (used on what a thread got).  -> [(class, detail)]"""
+        r, g, b = rgb
+        s, prob = self.sem(d)
+        if s is None:
+            return [("gamut", "result %s" % prob)]
+        k0 = s[0]
+        out = []
+        if T == "TRUECOLOR":
+            if s != ("rgb", r, g, b):
+                out.append(("unchanged", "%r became %s" % (rgb, _show(d))))
+        elif T in ("STANDARD", "WINDOWS"):
+            if k0 != "n16":
+                return [("gamut", "%s is not a colour of the %s system" % (_show(d), T.lower()))]
+            near = self.near.get(T)
+            if near is not None:
+                dl = near.d2(r, g, b)
+                m = min(dl)
+                if dl[s[1]] != m:
+                    best = dl.index(m)
+                    out.append(("nearest", "%r -> %s entry %d %r at squared redmean distance %d; entry %d %r is at %d"
+                                % (rgb, T.lower(), s[1], near.pal[s[1]], dl[s[1]], best, near.pal[best], m)))
+        else:
+            if k0 not in ("n16", "n256"):
+                return [("gamut", "%s is not a colour of the eight_bit system" % _show(d))]
+            n = s[1]
+            if r == g == b and not (n == 16 or n >= 231):
+                out.append(("grey", "grey %r -> colour %d, off the grey ramp" % (rgb, n)))
+            if 16 <= n < 232:
+                R, G, B = CUBE_DEC[n]
+                if not (CUBE_OK[r] >> R & 1 and CUBE_OK[g] >> G & 1 and CUBE_OK[b] >> B & 1):
+                    out.append(("far-from-input", "%r -> colour %d = %r" % (rgb, n, XTERM[n])))
+            elif n >= 232 and not (GREY_LO[min(rgb)] <= n - 231 <= GREY_HI[max(rgb)]):
+                out.append(("far-from-input", "%r -> colour %d = grey %d" % (rgb, n, GREY_LEVELS[n - 231])))
+        return out
+
     _WANT = {"std": "n16", "win": "n16", "idx": "n256"}
 
     def check_color(self, desc, order, res, full=True):
@@ -752,6 +798,165 @@ def _part_hist(sh, res):
     res.sample({"part": "hist", "seq": [list(H_EVENTS[e]) for e in (0, 13, 9)]}, limit=1)
 
 
+# ------------------------------------------------------------------ part "threads" (E3)
+# Two real threads convert colours at the same time through the process-wide palettes and
+# memos; vf/sched.py enumerates every interleaving of the executed lines of rich.color and
+# rich.palette with <= bound preemptions.  Each thread's result, and the (memoised) answer
+# to the same question asked afterwards, must satisfy the sequential clauses.
+T_HARNESS = {
+    # id: (colour A, system A, colour B, system B)
+    "same-palette": ((255, 85, 85), "STANDARD", (85, 85, 255), "STANDARD"),    # exact entries 9 and 12
+    "same-colour": ((200, 30, 30), "STANDARD", (200, 30, 30), "STANDARD"),
+    "std-vs-win": ((255, 85, 85), "STANDARD", (59, 120, 255), "WINDOWS"),      # exact entries 9 / 12
+    "win-win": ((231, 72, 86), "WINDOWS", (12, 12, 12), "WINDOWS"),            # exact entries 9 / 0
+    "to-256": ((255, 85, 85), "EIGHT_BIT", (128, 128, 128), "EIGHT_BIT"),      # cube path / grey path
+}
+T_ORDER = ("same-palette", "same-colour", "std-vs-win", "win-win", "to-256")
+_T_CODES = []
+
+
+def _t_bound(hid, tier):
+    # one palette scan is ~210 line points per thread: bound 1 = 422 schedules (~3 CPU-s),
+    # bound 2 = ~88,000 schedules (~420 CPU-s) per harness (measured)
+    if hid == "to-256":
+        return 2 if tier == "quick" else 3
+    if tier == "thorough" and hid in ("same-palette", "std-vs-win"):
+        return 2
+    return 1
+
+
+def _t_events(on):
+    """LINE events of every code object of rich.palette / rich.color as scheduling points; switched
+    off again after the shard (the callback would slow every later conversion in this worker)."""
+    from .. import sched
+    sched.install()
+    if not _T_CODES:
+        import rich.color
+        import rich.palette
+        for mod in (rich.palette, rich.color):
+            _T_CODES.extend(sched._code_objects(mod))
+    ev = sys.monitoring.events.LINE if on else 0
+    for co in _T_CODES:
+        sys.monitoring.set_local_events(sched.TOOL, co, ev)
+    sched.SKIP_CODES = frozenset()
+
+
+def _t_make(hid):
+    ca, sa, cb, sb = T_HARNESS[hid]
+    O = oracle()
+
+    def make(s):
+        O.clear_caches()
+        Color = O.Color
+        out = {}
+
+        def A():
+            out["A"] = Color.from_rgb(*ca).downgrade(O.SYS[sa])
+
+        def B():
+            out["B"] = Color.from_rgb(*cb).downgrade(O.SYS[sb])
+
+        def observe():
+            again = {}
+            for tid, c, sy in (("A", ca, sa), ("B", cb, sb)):
+                try:
+                    again[tid] = Color.from_rgb(*c).downgrade(O.SYS[sy])
+                except Exception as e:
+                    again[tid] = e
+            return {"got": dict(out), "again": again}
+        return {"A": A, "B": B}, observe
+    return make
+
+
+def _t_judge(hid, s, obs):
+    """-> (signature, [(key, detail)])"""
+    ca, sa, cb, sb = T_HARNESS[hid]
+    O = oracle()
+    vio = []
+    if s.problem:
+        vio.append(("threads/%s" % s.problem.split(":")[0], s.problem))
+    for tid, e in s.errors:
+        vio.append(("threads/exception/%s" % type(e).__name__, "thread %s raised %r" % (tid, e)))
+    nums = []
+    for tid, c, sy in (("A", ca, sa), ("B", cb, sb)):
+        tag = "rgb-to-%s" % sy.lower()
+        if tid not in obs["got"]:
+            nums.append(None)
+            if not s.problem and not any(t == tid for t, _ in s.errors):
+                vio.append(("threads/no-result", "thread %s stored no result" % tid))
+            continue
+        d = obs["got"][tid]
+        nums.append(getattr(d, "number", None))
+        for cls, detail in O.judge_rgb_value(d, c, sy):
+            vio.append(("threads/%s/%s" % (cls, tag), "thread %s: %s" % (tid, detail)))
+        a = obs["again"][tid]
+        if isinstance(a, Exception):
+            vio.append(("threads/requery-exception/%s" % type(a).__name__, "asking again for %r -> %s: %r" % (c, sy, a)))
+            continue
+        for cls, detail in O.judge_rgb_value(a, c, sy):
+            vio.append(("threads/memoised/%s/%s" % (cls, tag), "asked again after the threads finished: %s" % detail))
+        if not (type(a) is type(d) and a == d):
+            vio.append(("threads/requery-differs/%s" % tag,
+                        "thread %s got %s, the same question afterwards gives %s" % (tid, _show(d), _show(a))))
+    dev = s.deviations_before(len(s.choices))
+    return ("threads", hid, tuple(nums), min(dev, 3), bool(vio)), vio
+
+
+def _part_threads(sh, tier, res):
+    from .. import sched
+    hid, bound = sh["h"], sh["bound"]
+    _t_events(True)
+    try:
+        def judge(s, obs):
+            sig, vio = _t_judge(hid, s, obs)
+            res.evaluations += 4            # two conversions in threads + two re-queries, all judged
+            res.sig(sig, nontrivial=sig[3] > 0)
+            res.count("choice_points", len(s.choices))
+            if vio:
+                ch = list(s.choices)
+                while ch and ch[-1] == 0:       # the default choice after the prefix is 0 anyway
+                    ch.pop()
+                for key, detail in vio:
+                    res.violate(key, {"part": "threads", "h": hid, "choices": ch}, detail)
+        st = sched.explore(_t_make(hid), bound, judge, granularity="line", timeout_budget=0,
+                           first_level=(sh["i"], sh["n"]), stop=deadline_passed)
+    finally:
+        _t_events(False)
+    res.count("schedules", st["executions"])
+    res.counters["max_choice_points_per_schedule"] = st["max_choice_points"]
+    if st["complete"]:
+        if sh["i"] == 0:
+            res.count("threads_complete:%s:b%d" % (hid, bound))
+    else:
+        res.capped = True
+        res.count("threads_incomplete:%s:b%d" % (hid, bound))
+    if sh["i"] == 0:
+        ca, sa, cb, sb = T_HARNESS[hid]
+        res.sample({"part": "threads", "harness": hid, "A": [list(ca), sa], "B": [list(cb), sb], "bound": bound}, limit=1)
+
+
+def _replay_threads(case, res):
+    from .. import sched
+    _t_events(True)
+    try:
+        s, obs = sched.run_once(_t_make(case["h"]), case["choices"], "line", 0)
+    finally:
+        _t_events(False)
+    _sig, vio = _t_judge(case["h"], s, obs)
+    for key, detail in vio:
+        res.violate(key, case, detail)
+
+
+def finish(tier, seed, res):
+    """a schedule counterexample must reproduce identically twice before it is reported"""
+    for key, (size, cj, detail) in list(res.violations.items()):
+        case = json.loads(cj)
+        if case.get("part") == "threads":
+            a, b = replay(case), replay(case)
+            if a != b or key not in [k for k, _ in a]:
+                raise MachineryError("schedule replay not reproducible for %s: %r vs %r" % (key, a, b))
+
+
 def _lattice_offset(seed):
     k = seed % (LATTICE ** 3)
     return (k % LATTICE, (k // LATTICE) % LATTICE, k // (LATTICE * LATTICE))
@@ -763,6 +968,10 @@ def plan(tier, seed):
               {"part": "greys"}, {"part": "pals"}]
     shards += [{"part": "grid", "ri": i} for i in range(len(GRID))]
     shards += [{"part": "hist", "i": i, "n": 8} for i in range(8)]
+    for hid in T_ORDER:
+        b = _t_bound(hid, tier)
+        n = 16 if (b == 2 and hid != "to-256") else 1
+        shards += [{"part": "threads", "h": hid, "bound": b, "i": i, "n": n} for i in range(n)]
     if tier == "quick":
         o = _lattice_offset(seed)
         shards += [{"part": "lattice", "r": r, "og": o[1], "ob": o[2]} for r in range(o[0], 256, LATTICE)]
@@ -794,6 +1003,8 @@ def run_shard(sh, tier, seed):
             res.sample({"part": "rgb", "desc": ["rgb", r, 77, 230, "rgbstr"]}, limit=1)
     elif p == "hist":
         _part_hist(sh, res)
+    elif p == "threads":
+        _part_threads(sh, tier, res)
     elif p == "lattice":
         _rgb_block([(sh["r"], g, b) for g in range(sh["og"], 256, LATTICE) for b in range(sh["ob"], 256, LATTICE)],
                    ("triplet",), res, sh, False, info=True)
@@ -824,7 +1035,14 @@ def describe(tier, seed, res):
                 "sequence of <=%d conversions over %d colours sharing names/triplets x 4 systems from cold memos, last "
                 "conversion judged. A case is non-trivial when the conversion really changes the colour's system; "
                 "distinct = (input kind, target, result kind, branch: chosen 16-colour entry and tie / cube, ramp, "
-                "black-white / unchanged)." % (len(oracle().names), H_DEPTH, len(H_COLOURS)),
+                "black-white / unchanged). Threads (E3, vf/sched.py): harnesses %s -- two real threads each "
+                "convert one RGB colour through the shared palettes and memos from cold memos; every interleaving of the "
+                "executed lines of rich.color and rich.palette with <= bound preemptions (%s) is run; each thread's result "
+                "and the memoised answer to the same question afterwards are judged by the sequential clauses; a schedule "
+                "is non-trivial when it contains a preemption."
+                % (len(oracle().names), H_DEPTH, len(H_COLOURS),
+                   ", ".join("%s: %r->%s || %r->%s" % ((h,) + T_HARNESS[h]) for h in T_ORDER),
+                   ", ".join("%s: %d" % (h, _t_bound(h, tier)) for h in T_ORDER)),
         "assumptions": [
             "the three palettes in rich/_palettes.py are trusted as data (entries 16..255 of the 256-colour palette are checked against the xterm cube and grey ramp)",
             "distance = integer redmean formula; any entry at minimum distance is accepted",
@@ -832,9 +1050,16 @@ def describe(tier, seed, res):
             "STANDARD and WINDOWS typed results are both accepted as a 16-colour index; an index colour keeps its number when the target system contains it",
             "a WINDOWS colour converted to STANDARD may keep its number or take the nearest standard entry to its Windows-palette triplet",
             "hand-built EIGHT_BIT colours with number < 16 and theme-dependent get_truecolor are not covered",
+            "threads: scheduling points are the executed lines of rich.color and rich.palette (not bytecodes, not the C code of lru_cache / min); two threads, preemption-bounded",
         ],
         "coverage": {"rgb_colours_walked": res.counters.get("rgb_colours", 0),
-                     "histories": res.counters.get("histories", 0)},
+                     "histories": res.counters.get("histories", 0),
+                     "states": res.counters.get("choice_points", 0),
+                     "transitions": res.counters.get("schedules", 0),
+                     "schedules_explored": res.counters.get("schedules", 0),
+                     "completed_thread_harness_bounds": sorted(k[17:] for k in res.counters if k.startswith("threads_complete:")),
+                     "explanation": "states = scheduling choice points visited over all explored schedules of the thread "
+                                    "harnesses; transitions = schedules explored, each a complete execution of the real code"},
     }
 
 
@@ -847,6 +1072,8 @@ def replay(case):
             res.violate(key, case, detail)
     elif p == "hist":
         _run_hist(tuple(case["seq"]), res)
+    elif p == "threads":
+        _replay_threads(case, res)
     else:
         desc = tuple(case["desc"])
         O.clear_caches()
